@@ -426,3 +426,7 @@ func VerifH_C12_verifier_result() {
 	vr.Assert(res.HasTrustedChain() == (len(res.CurrentChains) > 0) && !res.InRevocationSet, "helpers")
 	vr.Cover("done")
 }
+
+// C02: graph insertion is total (reuses the C10 harness; the no-panic monitor is on).
+// verif: covers=done
+func VerifH_C02_graph_insertion_total() { VerifH_C10_graph_determined_by_cert_set() }
